@@ -125,8 +125,8 @@ func logParse(c *casket.Controller) ([]*Rule, error) {
 			path = args[0]
 			output = args[1]
 			if len(args) > 2 {
-				format = strings.Replace(args[2], "{common}", CommonLogFormat, -1)
-				format = strings.Replace(format, "{combined}", CombinedLogFormat, -1)
+				format = expandShorthand(args[2], "{common}", CommonLogFormat)
+				format = expandShorthand(format, "{combined}", CombinedLogFormat)
 			}
 		default:
 			// Maximum number of args in log directive is 3.
@@ -171,3 +171,24 @@ const (
 
 	DefaultIP6Mask = "ffff:ffff:ffff:ffff:ffff:ffff:ffff:ffff"
 )
+
+// expandShorthand replaces the occurrences of name (a format shorthand such
+// as {common}) in format by expansion. An occurrence whose opening brace is
+// escaped with a backslash is literal text for the replacer and stays as it is.
+func expandShorthand(format, name, expansion string) string {
+	var b strings.Builder
+	for {
+		i := strings.Index(format, name)
+		if i < 0 {
+			b.WriteString(format)
+			return b.String()
+		}
+		b.WriteString(format[:i])
+		if i > 0 && format[i-1] == '\\' {
+			b.WriteString(name)
+		} else {
+			b.WriteString(expansion)
+		}
+		format = format[i+len(name):]
+	}
+}
